@@ -268,7 +268,7 @@ package gpbft
 // A justification is accepted only with a strong quorum of the committee's scaled power behind it and an aggregate
 // signature that verifies, for exactly the listed signers, over the justification's vote bound to the expected value.
 //@ func (*cachingValidator).validateJustificationSignature
-//@   property C05 C13 C03 C01
+//@   property C05 C13 C03 C01 C02
 //@   requires comt != nil && tblOK(comt.PowerTable) && justif != nil && ssumDef(comt.PowerTable.ScaledPower, justif.Signers)
 //@   modifies auto
 //@   maypanic
@@ -284,7 +284,7 @@ package gpbft
 // for bottom or PREPARE for the same value from the previous round; COMMIT by PREPARE for the same value in the same
 // round; DECIDE by COMMIT for the same value (any round).
 //@ func (*cachingValidator).validateJustification
-//@   property C05 C13 C03 C01
+//@   property C05 C13 C03 C01 C02
 //@   harness harness/validator_sentinel_round_test.go
 //@   requires msg != nil && comt != nil && tblOK(comt.PowerTable) && (msg.Justification != nil ==> ssumDef(comt.PowerTable.ScaledPower, msg.Justification.Signers))
 //@   requires !((msg.Vote.Phase == CONVERGE_PHASE || msg.Vote.Phase == PREPARE_PHASE) && msg.Vote.Round == 0)
@@ -350,7 +350,7 @@ package gpbft
 // message must still be relevant, bottom must be announced as bottom, and the justification must be for the value
 // the protocol prescribes for the step pair.
 //@ func (*cachingValidator).FullyValidateMessage
-//@   property C13 C05 C01
+//@   property C13 C05 C01 C02
 //@   modifies auto
 //@   maypanic
 //@   at return 11
@@ -459,7 +459,7 @@ package gpbft
 
 // Supplemental data are equal exactly when both the commitments and the next power table's CID are.
 //@ func (*SupplementalData).Eq
-//@   property C03 C05
+//@   property C03 C05 C07 C01 C02
 //@   modifies nothing
 //@   ensures[compares_commitments_and_power_table_cid] result == (d.Commitments == other.Commitments && d.PowerTable == other.PowerTable)
 
@@ -1385,3 +1385,78 @@ package gpbft
 //@   at return 0
 //@     before[entries_scaled_powers_and_lookup_are_clones_of_the_originals] arg(0) == replica && replica.Entries == res(Clone, 1) && argOf(Clone, 1, 0) == p.Entries && replica.ScaledPower == res(Clone, 2) && argOf(Clone, 2, 0) == p.ScaledPower
 //@          && replica.Lookup == res(Clone, 3) && argOf(Clone, 3, 0) == p.Lookup && replica.ScaledTotal == p.ScaledTotal && replica != p
+
+// ---- what an honest participant hands to its host for signing and broadcast (C07): the vote is for this instance and
+// ---- its supplemental data, with the given round, step and value, the given justification, the instance's table, and a
+// ---- ticket beacon exactly when a ticket is asked for.
+//@ func (*instance).broadcast
+//@   property C07
+//@   modifies auto
+//@   maypanic
+//@   at RequestBroadcast 1
+//@     before[the_vote_is_for_this_instance_round_step_and_value] arg(0) == mb && mb.Payload.Instance == i.current.ID && mb.Payload.Round == round && mb.Payload.Phase == phase && mb.Payload.Value == value && mb.Payload.SupplementalData == *i.supplementalData
+//@     before[with_the_given_justification_and_the_instances_table] mb.Justification == justification && mb.PowerTable == i.powerTable && mb.NetworkName == res(NetworkName, 1)
+//@     before[a_ticket_beacon_exactly_when_a_ticket_is_asked_for] ite(createTicket, mb.BeaconForTicket == i.beacon, len(mb.BeaconForTicket) == 0)
+//@   at return 0
+//@     before[exactly_one_request_per_call] dominatedBy(RequestBroadcast, 1)
+
+// The keys handed to aggregate verification are the table's keys in table order.
+//@ func (PowerEntries).PublicKeys
+//@   property C04 C19 C03
+//@   modifies auto
+//@   maypanic
+//@   ensures[one_key_per_entry_in_table_order] len(result) == len(e) && forall(j, 0, len(e), result[j] == e[j].PubKey, trigger(result[j]))
+//@   loop 1
+//@     invariant len(keys) == len(e) && forall(j, 0, iter, keys[j] == e[j].PubKey, trigger(keys[j]))
+
+// Messages for an instance that has not started are queued per sender, at most one per (round, step) and sender, and are
+// all handed over (and forgotten) when that instance starts.
+//@ func (*messageQueue).Add
+//@   property C07
+//@   modifies auto
+//@   maypanic
+//@   at return 2
+//@     before[a_second_message_of_a_sender_for_the_same_round_and_step_is_dropped] m.Vote.Round == msg.Vote.Round && m.Vote.Phase == msg.Vote.Phase
+//@   ensures[the_queue_of_the_messages_instance_exists_afterwards] has(q.messages, msg.Vote.Instance)
+
+//@ func (*messageQueue).Drain
+//@   property C07 C15
+//@   modifies auto
+//@   maypanic
+//@   at loopback 1
+//@     before[every_senders_messages_are_handed_over] len(msgs) == len(prev(msgs)) + len(ms)
+//@   at return 0
+//@     before[the_instances_queue_is_forgotten_and_the_collected_messages_returned] arg(0) == msgs && !has(q.messages, instance) && dominatedBy(SliceStable, 1)
+
+// ---- C14 / C07: what is signed is the marshalling, made in this call, of the very payload that will be sent ----
+//@ func (*MessageBuilder).PrepareSigningInputs
+//@   property C14 C07
+//@   modifies auto
+//@   maypanic
+//@   opaque Get
+//@   at Get 1
+//@     before[the_power_looked_up_is_that_of_the_participant_in_the_builders_table] arg(0) == id && recv() == mb.PowerTable
+//@   at MarshalForSigning 1
+//@     before[the_payload_being_sent_is_what_is_marshalled_for_signing] arg(0) == &mb.Payload && arg(1) == mb.NetworkName
+//@   at vrfSerializeSigInput 1
+//@     before[the_ticket_input_is_made_from_the_builders_beacon_instance_round_and_network] arg(0) == mb.BeaconForTicket && arg(1) == mb.Payload.Instance && arg(2) == mb.Payload.Round && arg(3) == mb.NetworkName
+//@   at return 2
+//@     before[only_a_participant_with_scaled_power_gets_signing_inputs] res(Get, 1, 0) != 0
+//@     before[the_bytes_to_sign_are_those_marshallings_and_the_payload_is_the_builders] arg(1) == nil && arg(0) == &sb && sb.PayloadToSign == res(MarshalForSigning, 1) && sb.Payload == mb.Payload && sb.NetworkName == mb.NetworkName
+//@          && sb.Justification == mb.Justification && sb.ParticipantID == id && (called(vrfSerializeSigInput, 1) ==> sb.VRFToSign == res(vrfSerializeSigInput, 1)) && (!called(vrfSerializeSigInput, 1) ==> len(sb.VRFToSign) == 0)
+
+// Signing signs exactly those bytes with the participant's key; the message built carries the builder's payload,
+// justification and participant with the given signatures.
+//@ func (*SignatureBuilder).Sign
+//@   property C14 C07
+//@   modifies auto
+//@   maypanic
+//@   at Sign 1
+//@     before[the_prepared_payload_bytes_are_signed_with_the_participants_key] arg(1) == st.PubKey && arg(2) == st.PayloadToSign
+//@   at Sign 2
+//@     before[the_prepared_ticket_input_is_signed_with_the_participants_key] arg(1) == st.PubKey && arg(2) == st.VRFToSign
+
+//@ func (*SignatureBuilder).Build
+//@   property C14 C07
+//@   modifies auto
+//@   ensures[the_message_carries_the_prepared_payload_and_the_given_signatures] result != nil && result.Sender == st.ParticipantID && result.Vote == st.Payload && result.Signature == payloadSignature && result.Ticket == vrf && result.Justification == st.Justification
